@@ -92,6 +92,22 @@ func (net *vcNet) syncTail(w *vcWriter, run int, in *vcInput) {
 				progressed = true
 			}
 		}
+		// 1b. the faulty validators are not bound by the hypothesis: a message of theirs may overtake the gossip
+		// between correct nodes (every third pass, within the same budget as at quiescence)
+		if in.ByzAfter && byzBudget > 0 && len(net.byz) > 0 && rng.Intn(3) == 0 {
+			byzc := []vcStep{}
+			for _, c := range net.candidates(rng) {
+				if c.st.Name == "Deliver" && net.byz[c.st.M.Src] {
+					byzc = append(byzc, c.st)
+				}
+			}
+			if len(byzc) > 0 {
+				byzBudget--
+				if net.step(w, run, byzc[rng.Intn(len(byzc))]) {
+					steps++
+				}
+			}
+		}
 		// 2. idealised gossip
 		for _, nn := range net.corr {
 			n := net.nodes[nn]
